@@ -61,6 +61,9 @@ def run_history(chooser, steps):
     states = []
     checked = 0
     history = []
+    latched_at = []                     # write attempts made when the first error was latched
+    obj.__dict__["_verif_on_latch"] = lambda: latched_at.append(
+        sum(len(p.write_attempts) for p in ports))
     for i, step in enumerate(steps):
         for prt in ports:
             prt.tag = f"s{i}:"
@@ -110,6 +113,16 @@ def run_history(chooser, steps):
                 viols.append((f"connect_raise:{env}", f"{where}connect() [{env}] raised "
                               f"{type(exc).__name__}: {exc}"))
             history.append(f"connect()[{env}]={ret!r}")
+        # "... and then transmits nothing": bytes handed to the port after the first error was
+        # latched, inside the very call that latched it, count as well
+        if latched_at and len(latched_at) == 1:
+            now = sum(len(p.write_attempts) for p in ports)
+            if now > latched_at[0]:
+                sent = [w for p in ports for w in p.write_attempts][latched_at[0] - now:]
+                viols.append((f"after_latch:{history[-1].split('(')[0]}",
+                              f"{where}{history[-1]}: {sent!r} was handed to the port after the "
+                              f"error {obj.err!r} had been recorded"))
+            latched_at.append(None)     # checked once, at the end of the step that latched
         # first-error-wins latch, evaluated after every step
         log = obj.__dict__.get("err_log", [])
         non_none = [v for v in log if v is not None]
